@@ -28,7 +28,9 @@ RULE = ("generated request bodies, line-wise: action/document pairs with LF/CRLF
         "chunked body reader; 10+ buffer sizes each in its own process; random metas through the real MarshalBinaryTo/UnmarshalBinary "
         "(plus truncated / header-corrupted / extended encodings) and the metas payload of accepted requests; 100 histories per quick run "
         "(0-2 accepted requests without surviving document, then one request held inside StoreDocuments while 1-3 others run to completion, "
-        "then sequential ones; GOMAXPROCS default/1/2). non-trivial = body with >= 2 lines exercising at least one "
+        "then sequential ones; GOMAXPROCS default/1/2; gzip and plain mixed; the held request blocks inside StoreDocuments or inside its body "
+        "reader after 0..k lines); 300 requests whose body reader breaks (unexpected EOF, connection error, timeout; plain and cut gzip) "
+        "at start / after a document line / after an action line / inside a line / at the end. non-trivial = body with >= 2 lines exercising at least one "
         "such feature; distinct by request")
 
 
